@@ -57,7 +57,7 @@ func (S) Info() scen.Info {
 			"goroutine scheduling":   "stub: single walker task under the seeded scheduler",
 		},
 		QuickUnits: 2500, ThoroughUnits: 150000, QuickSecs: 240, ThoroughSecs: 1200,
-		ProbeKeys: []string{"probe.focus_nodebudget_cut", "probe.focus_linkbudget_cut", "probe.transform_once_cut", "probe.transform_linkbudget_cut", "probe.transform_skip_cut", "probe.budget_cut_mid_block", "probe.linkbudget_cut", "probe.startat_inside_linked_block", "probe.startat_skipped_load", "probe.once_pruned", "probe.skipme_pruned", "probe.resume_concat_checked", "probe.w0_ended_in_error", "probe.repeated_link", "probe.matching_walk", "probe.transform_budget_cut", "probe.walklocal_budget_cut"},
+		ProbeKeys: []string{"probe.walklocal_visitor_skipme_cut", "probe.focus_nodebudget_cut", "probe.focus_linkbudget_cut", "probe.transform_once_cut", "probe.transform_linkbudget_cut", "probe.transform_skip_cut", "probe.budget_cut_mid_block", "probe.linkbudget_cut", "probe.startat_inside_linked_block", "probe.startat_skipped_load", "probe.once_pruned", "probe.skipme_pruned", "probe.resume_concat_checked", "probe.w0_ended_in_error", "probe.repeated_link", "probe.matching_walk", "probe.transform_budget_cut", "probe.walklocal_budget_cut"},
 		EventsKey: "events",
 	}
 }
@@ -627,6 +627,50 @@ func (S) RunTape(t *sim.Tape, st *sim.Stats, keepLog bool) *sim.Outcome {
 			if p0 != "" || e0 != nil {
 				return
 			}
+			if parsed {
+				// the visitor declines one node's children (SkipMe at the pos-th visit): exactly that subtree goes
+				if len(l0) == 0 {
+					return
+				}
+				at := pos % len(l0)
+				var got []string
+				var err error
+				pan := ""
+				func() {
+					defer func() {
+						if r := recover(); r != nil {
+							if _, ok := r.(interface{ IsStepCap() }); ok {
+								panic(r)
+							}
+							pan = fmt.Sprint(r)
+						}
+					}()
+					i := 0
+					err = traversal.Progress{}.WalkLocal(w.g.RootNode, func(p traversal.Progress, n datamodel.Node) error {
+						got = append(got, p.Path.String())
+						i++
+						if i-1 == at {
+							return traversal.SkipMe{}
+						}
+						return nil
+					})
+				}()
+				var want []string
+				for i, p := range l0 {
+					if i > at && (l0[at] == "" || strings.HasPrefix(p, l0[at]+"/")) {
+						continue // a later visit strictly below the declined node (parents are visited before children)
+					}
+					want = append(want, p)
+				}
+				if pan != "" || err != nil || strings.Join(got, "\x00") != strings.Join(want, "\x00") {
+					o.Fail("restricted-walk-differs", sig, "WalkLocal whose visitor returns SkipMe at visit #%d (%q) visited %q (err=%v panic=%s); the unrestricted walk without what lies below that node is %q", at, l0[at], got, err, pan, want)
+				}
+				cut = len(want) < len(l0)
+				if cut {
+					st.Inc("probe.walklocal_visitor_skipme_cut")
+				}
+				return
+			}
 			N := pos
 			if N > len(l0)+1 {
 				return
@@ -1074,8 +1118,12 @@ func (S) Unit(u *scen.Unit) {
 		}
 	}
 	for n := 0; n < 24; n++ {
-		u.Exec(map[string]int{"ctl.kind": 8, "ctl.pos": n, "ctl.matching": 0})
+		u.Exec(map[string]int{"ctl.kind": 8, "ctl.pos": n, "ctl.matching": 0, "ctl.parsed": 0})
 		u.St.Inc("enum.walklocal_budget")
+	}
+	for n := 0; n < 16; n++ {
+		u.Exec(map[string]int{"ctl.kind": 8, "ctl.pos": n, "ctl.matching": 0, "ctl.parsed": 1})
+		u.St.Inc("enum.walklocal_visitor_skipme")
 	}
 	if !bi.Err0 && bi.V > 0 {
 		// Focus / Get / FocusedTransform along seeded visited paths, every small node and link budget
